@@ -45,7 +45,9 @@ Record env := mkEnv {
   oip : bool -> bool;              (* provider.oid_is_path, per side (false = LOCAL) *)
   cvs : bool -> conv;              (* path convention of the provider *)
   punt : bool -> N;                (* _punt_secs, in 1/1000 *)
-  info : bool -> str -> option str (* provider.info_path(p).oid, None = no info *) }.
+  info : bool -> str -> option str;(* provider.info_path(p).oid, None = no info *)
+  legacy : bool                    (* true = the code before /repo commits 029c8f6 and ccb41ee (model variant kept
+                                      for the refuted termination statements); false = the code as it is *) }.
 
 Inductive err := ERecursion | EAssert | EKey | ETape | EBad.
 Inductive res (T : Type) := Ok (x : T) | Err (e : err).
@@ -245,13 +247,15 @@ Definition oid_step (rec : cmd -> state -> res state) (e : eid) (sd : bool) (r :
   end.
 
 (* the body of `for sub, relative in self.get_kids(prior_path, side)` in _update_kids *)
-Definition kid_step (rec : cmd -> state -> res state) (sd : bool) (pp p : str) (sub : eid) (s : state) : res state :=
+Definition kid_step (rec : cmd -> state -> res state) (e : eid) (sd : bool) (pp p : str) (sub : eid) (s : state) : res state :=
   sn <- get_ent s sub ;;
   match s_path (gs sn sd) with
   | Some sp =>
     if tstr (Some sp) then
       match is_subpath (cvs E sd) pp sp true with
       | Rel (c0 :: rel0) =>
+        (* 029c8f6: `if sub is ent: continue` *)
+        if negb (legacy E) && Nat.eqb sub e then Ok s else
         let rel := c0 :: rel0 in
         let np := join (cvs E sd) [p; rel] in
         s1 <- (if oip E sd then
@@ -279,10 +283,10 @@ Definition kid_step (rec : cmd -> state -> res state) (sd : bool) (pp p : str) (
     else Ok s
   | None => Ok s
   end.
-Fixpoint kids_loop (rec : cmd -> state -> res state) (sd : bool) (pp p : str) (l : list eid) (s : state) : res state :=
+Fixpoint kids_loop (rec : cmd -> state -> res state) (e : eid) (sd : bool) (pp p : str) (l : list eid) (s : state) : res state :=
   match l with
   | [] => Ok s
-  | sub :: r => s' <- kid_step rec sd pp p sub s ;; kids_loop rec sd pp p r s'
+  | sub :: r => s' <- kid_step rec e sd pp p sub s ;; kids_loop rec e sd pp p r s'
   end.
 
 Fixpoint exec (fuel : nat) (c : cmd) (s : state) {struct fuel} : res state :=
@@ -316,7 +320,7 @@ Fixpoint exec (fuel : nat) (c : cmd) (s : state) {struct fuel} : res state :=
                            | Some pp =>
                              y <- get_all_ordered sc ;;
                              let '(order, s0) := y in
-                             kids_loop (exec f) sd pp p order s0
+                             kids_loop (exec f) e sd pp p order s0
                            end
                          else Ok sc) ;;
                  (* new_priority = prioritize(side, path) = 0 *)
@@ -358,7 +362,10 @@ Fixpoint exec (fuel : nat) (c : cmd) (s : state) {struct fuel} : res state :=
       s1 <- (if (tchg v && tstr (s_oid x)) || (tchg (s_chg y) && tstr (s_oid y)) then Ok (cs_add s e)
              else
                let sa := cs_del s e in
-               if tchg (s_chg y) && negb (tstr (s_oid y)) then exec f (CChg true e (negb sd) (CNum 0%N)) sa
+               if tchg (s_chg y) && negb (tstr (s_oid y)) then
+                 (* ccb41ee: plain write `ent[other]._changed = 0` instead of the intercepted setter *)
+                 if legacy E then exec f (CChg true e (negb sd) (CNum 0%N)) sa
+                 else Ok (raw_side sa e (negb sd) (fun z => w_chg z (CNum 0%N)))
                else Ok sa) ;;
       let s2 := dirty_add s1 e in
       Ok (if fin then raw_side s2 e sd (fun z => w_chg z v) else s2)
@@ -838,11 +845,11 @@ Definition mk_conv (cs : bool) : conv :=
   {| cv_sep := 47%N; cv_alt := Some 92%N; cv_cs := cs; cv_win := false; cv_fold := fold_std |}.
 Definition un_env (x : sx) : option env :=
   match x with
-  | L [oipL; oipR; csL; csR; A pL; A pR; iL; iR] =>
-    obind (un_bool oipL) (fun oipL => obind (un_bool oipR) (fun oipR => obind (un_bool csL) (fun csL =>
+  | L [oipL; oipR; csL; csR; A pL; A pR; iL; iR; lg] =>
+    obind (un_bool lg) (fun lg => obind (un_bool oipL) (fun oipL => obind (un_bool oipR) (fun oipR => obind (un_bool csL) (fun csL =>
     obind (un_bool csR) (fun csR => obind (un_info iL) (fun iL => obind (un_info iR) (fun iR =>
     Some (mkEnv (fun sd => if sd then oipR else oipL) (fun sd => mk_conv (if sd then csR else csL))
-                (fun sd => if sd then pR else pL) (fun sd => if sd then iR else iL))))))))
+                (fun sd => if sd then pR else pL) (fun sd => if sd then iR else iL) lg))))))))
   | _ => None
   end.
 
